@@ -240,3 +240,8 @@ fn default_slew_minimum_duration() -> f64 {
 fn default_meddling_threshold() -> NtpDuration {
     NtpDuration::from_seconds(5.)
 }
+
+// verification hook (guard: cfg(kani)); contract harnesses live outside the repository
+#[cfg(kani)]
+#[path = "/verif/kani/ntp_proto/algorithm/kalman/config.rs"]
+mod verif;
